@@ -75,6 +75,8 @@ def gen_case(rng, lang="en"):
         w = "".join(rng.choice(letters) for _ in range(rng.randint(1, 6))).strip(" ")
         w = " ".join(w.split()) or "i"
         images.append(nsnames[6] + ":" + w[0:1].upper() + w[1:] + rng.choice([".png", ".jpg", ".svg", ""]))
+        if rng.random() < 0.4:      # a second image with the same base name and another (or differently written) extension
+            images.append(nsnames[6] + ":" + w[0:1].upper() + w[1:] + rng.choice([".png", ".gif", ".svg", ".tif", ".tiff", ".jpg", ".PNG", ".jpeg"]))
     return {"lang": lang, "batches": batches, "redirects": redirects, "images": list(dict.fromkeys(images))}
 
 
